@@ -159,6 +159,10 @@ struct CyclePlan
   bool tdQuiesce{false};   // ReleaseInCallback: wait for the actors first (true sole owner)
   int extraStoppers{0};    // further outside threads calling stop() at (nearly) the same instant
   int stopperSkewUs{0};    // ... each delayed by i * skew
+  int parkAfterStop{0};    // last cycle, stop-outside: after stop() RETURNED, 1-2 plain-pointer callers park (long
+                           // timeouts) and the owner is dropped parkDropDelayUs later
+  int parkKinds{0};        // per late caller 2 bits: 0 receiveSync(unknown id) 1 receiveSync(drained id, 2nd call) 2 connectSync 3 receiveSync(unknown)
+  int parkDropDelayUs{0};
   bool stopInDrain{false}; // a close/observer/cleanup callback fired by the outside stop()'s drain calls stop() itself
   int guardedInCb{0};      // 0 none, 1 connectSync, 2 receiveSync, 3 setReadMode, 4 addListener: tried inside a callback
 };
@@ -187,6 +191,7 @@ std::string describe(const Plan &p)
     if (cy.tdKind == ReleaseInCallback || cy.tdKind == StopInCallback) s += pbt::Fmt() << " cb=" << cy.tdCallback << (cy.tdQuiesce ? " quiesced" : "");
     if (cy.extraStoppers) s += pbt::Fmt() << " +" << cy.extraStoppers << "stoppers@" << cy.stopperSkewUs << "us";
     if (cy.stopInDrain) s += " stopInDrain";
+    if (cy.parkAfterStop) s += pbt::Fmt() << " parkAfterStop=" << cy.parkAfterStop << "/kinds" << cy.parkKinds << " drop@" << cy.parkDropDelayUs << "us";
     if (cy.guardedInCb) s += pbt::Fmt() << " guardedInCb=" << cy.guardedInCb;
     int ai = 0;
     for (auto &a : cy.actors)
@@ -1092,6 +1097,134 @@ void runPlan(const Plan &plan, pbt::Case &c)
       for (int k = 0; k < kAKMax; ++k)
         if (mask & (1 << k)) c.label(std::string("in flight at teardown: ") + akName(k));
     }
+    // ---- park AFTER stop() returned, then destroy -------------------------------------------------
+    // The transport is stopped (no further close will ever come) but still owned. Callers that hold
+    // only a reference (plain pointer) park with timeouts far above B; once every one of them is
+    // counted by the teardown handshake (or has returned) the owner is dropped: the destructor's
+    // already-stopped path is the ONLY thing that can end these calls within the bound.
+    if (cy.parkAfterStop > 0 && cy.tdKind == StopOutside && ci + 1 == plan.cycles.size() && ctx->stopped.load())
+    {
+      std::shared_ptr<Transport> sp = ctx->lock();
+      if (sp)
+      {
+        Transport *tp = sp.get();
+        const int n = cy.parkAfterStop;
+        std::vector<std::unique_ptr<std::atomic<int>>> st; // 1 calling, 2 done
+        for (int i = 0; i < n; ++i) st.push_back(std::make_unique<std::atomic<int>>(0));
+        std::vector<std::thread> late;
+        const SessionId drained = sessions.empty() ? 424242 : sessions[0].sid;
+        for (int i = 0; i < n; ++i)
+          late.push_back(spawn(
+            [&, i]
+            {
+              int kind = (cy.parkKinds >> (2 * i)) & 3;
+              char buf[32];
+              std::size_t len = sizeof(buf);
+              st[static_cast<std::size_t>(i)]->store(1);
+              try
+              {
+                if (kind == 2)
+                {
+                  auto r = tp->connectSync("127.0.0.1", ctx->refusedPort, TlsMode::None, std::chrono::milliseconds(120000));
+                  if (r.isOk()) ctx->fail("C05/op-succeeds-after-stop/connectSync", "connectSync() returned ok on a stopped transport");
+                }
+                else if (kind == 1)
+                {
+                  // a reader that comes back after it consumed the PeerClosed tombstone
+                  // (bytes buffered in Sync mode before the stop are legitimately returned first:
+                  // drain-before-EOF; any result is a definite result)
+                  (void)tp->setReadMode(drained, ReadMode::Sync);
+                  for (int k = 0; k < 200; ++k)
+                  {
+                    len = sizeof(buf);
+                    auto r0 = tp->receiveSync(drained, buf, len, std::chrono::milliseconds(0));
+                    if (!r0.isOk() && r0.error().code == TransportError::Timeout) break; // drained AND tombstone consumed
+                  }
+                  len = sizeof(buf);
+                  (void)tp->receiveSync(drained, buf, len, std::chrono::milliseconds(120000));
+                }
+                else
+                {
+                  (void)tp->receiveSync(900000 + static_cast<SessionId>(i), buf, len, std::chrono::milliseconds(120000));
+                }
+              }
+              catch (const std::exception &e)
+              {
+                ctx->fail("C05/exception-from-call/after-stop", std::string("parking call after stop() threw: ") + e.what());
+              }
+              st[static_cast<std::size_t>(i)]->store(2);
+            }));
+        // gate: every late caller is done or counted (no other thread uses the transport now)
+        auto gate = [&]
+        {
+          int calling = 0;
+          for (auto &x : st)
+          {
+            int v = x->load();
+            if (v == 0) return false;
+            if (v == 1) ++calling;
+          }
+          if (calling == 0) return true;
+          return static_cast<int>(Injector::parked(*tp).total()) == calling;
+        };
+        auto deadline = Clock::now() + std::chrono::seconds(kBoundSec);
+        while (!gate() && Clock::now() < deadline) std::this_thread::sleep_for(std::chrono::microseconds(200));
+        int parkedNow = 0;
+        for (auto &x : st)
+          if (x->load() == 1) ++parkedNow;
+        if (gate())
+        {
+          if (parkedNow) c.label("destroyed after stop() with " + std::to_string(parkedNow) + " call(s) parked since the stop");
+          std::this_thread::sleep_for(std::chrono::microseconds(cy.parkDropDelayUs));
+          // names the stranded call if the destructor (this thread) and the waiters hang
+          std::atomic<bool> lateDone{false};
+          std::thread strandMonitor = spawn(
+            [&]
+            {
+              auto dl = Clock::now() + std::chrono::seconds(kBoundSec);
+              while (!lateDone.load() && Clock::now() < dl) std::this_thread::sleep_for(std::chrono::milliseconds(20));
+              if (!lateDone.load())
+              {
+                std::fprintf(stderr, "C05: destruction of a stopped transport with parked calls did not finish within %d s\n", kBoundSec);
+                pbt::watchdog(0.001, "C05/stranded-call/parked-after-stop");
+                std::this_thread::sleep_for(std::chrono::seconds(5));
+              }
+            });
+          sp.reset();
+          {
+            std::shared_ptr<Transport> take;
+            {
+              std::lock_guard<std::mutex> lk(ctx->ownerMu);
+              take = std::move(ctx->owner);
+              ctx->owner.reset();
+            }
+            take.reset(); // ~Transport on this (application) thread: already-stopped teardown path
+          }
+          for (auto &th : late) th.join();
+          lateDone.store(true);
+          strandMonitor.join();
+          anyNontrivial = anyNontrivial || parkedNow > 0;
+          if (parkedNow > 0) digest = pbt::hashMix(digest, 0x5709u + static_cast<std::uint64_t>(cy.parkKinds) * 7u + static_cast<std::uint64_t>(n));
+        }
+        else
+        {
+          // cannot destroy safely; the callers end with the normal end-of-case destruction only if
+          // they are parked - which is exactly what could not be established: give up loudly
+          c.label("note: late callers did not park");
+          sp.reset();
+          {
+            std::shared_ptr<Transport> take;
+            {
+              std::lock_guard<std::mutex> lk(ctx->ownerMu);
+              take = std::move(ctx->owner);
+              ctx->owner.reset();
+            }
+            take.reset();
+          }
+          for (auto &th : late) th.join();
+        }
+      }
+    }
     {
       std::lock_guard<std::mutex> lk(ctx->ownerMu);
       destroyed = !ctx->owner;
@@ -1179,6 +1312,12 @@ Plan genPlan(pbt::Src &src, bool udp)
       cy.stopperSkewUs = src.oneOf<int>({0, 0, 20, 150});
     }
     if ((cy.tdKind == StopOutside || cy.tdKind == StopInCallback) && src.coin(1, 3)) cy.stopInDrain = true;
+    if (lastCycle && cy.tdKind == StopOutside && src.coin(1, 2))
+    {
+      cy.parkAfterStop = static_cast<int>(src.range(1, 2));
+      cy.parkKinds = static_cast<int>(src.range(0, 15));
+      cy.parkDropDelayUs = src.oneOf<int>({0, 200, 3000, 20000});
+    }
     cy.nAccepted = static_cast<int>(src.range(0, 2));
     cy.nConnected = static_cast<int>(src.range(cy.nAccepted == 0 ? 1 : 0, 2));
     cy.writerMask = static_cast<int>(src.range(0, 15));
@@ -1298,6 +1437,47 @@ PBT_REGRESSION(restart_same_udp_peers)
     cy.actors = {a};
     p.cycles.push_back(cy);
   }
+  runPlan(p, c);
+}
+// stop() returned; THEN two callers park (receiveSync on an id that never existed / on a drained id
+// after its PeerClosed was consumed) and the owner is dropped: only the destructor's already-stopped
+// path can wake them
+PBT_REGRESSION(park_after_stop_then_destroy_tcp)
+{
+  Plan p;
+  p.udp = false;
+  CyclePlan cy;
+  cy.nAccepted = 1;
+  cy.nConnected = 1;
+  cy.writerMask = 0;
+  cy.tdKind = StopOutside;
+  cy.tdDelayUs = 1000;
+  cy.parkAfterStop = 2;
+  cy.parkKinds = 0 | (1 << 2);
+  cy.parkDropDelayUs = 2000;
+  ActorPlan a;
+  a.ops = {{StatsOp, 0, 0, 100}};
+  cy.actors = {a};
+  p.cycles = {cy};
+  runPlan(p, c);
+}
+PBT_REGRESSION(park_after_stop_then_destroy_udp)
+{
+  Plan p;
+  p.udp = true;
+  CyclePlan cy;
+  cy.nAccepted = 1;
+  cy.nConnected = 0;
+  cy.writerMask = 0;
+  cy.tdKind = StopOutside;
+  cy.tdDelayUs = 1000;
+  cy.parkAfterStop = 2;
+  cy.parkKinds = 1 | (2 << 2);
+  cy.parkDropDelayUs = 0;
+  ActorPlan a;
+  a.ops = {{StatsOp, 0, 0, 100}};
+  cy.actors = {a};
+  p.cycles = {cy};
   runPlan(p, c);
 }
 // two (three) application threads call stop() at the same instant
